@@ -241,6 +241,25 @@ def run_history(case, ctx):
     if h.deep:
         ctx.nontrivial()
 
+# ---------------------------------------------------------------- results of broadcast methods
+def run_methods(case, ctx):
+    """every vector a broadcast method / property returns (c05's method cases, incl. columns that hold lower-rung elements)"""
+    vals = case["vals"]
+    if not vals or all(x is None for x in vals):
+        return
+    v = B.vector(vals)
+    for name, args, kw in [tuple(p) for p in case["picks"]]:
+        try:
+            attr = getattr(v, name)
+            res = attr(*args, **kw) if callable(attr) and not isinstance(attr, S.Vector) else attr
+        except Exception:  # noqa: BLE001  (whether the call is defined is C05's matter)
+            continue
+        if isinstance(res, S.Vector) and check(ctx, res, f"method/{case['kind']}"):
+            return
+    if None in vals:
+        ctx.nontrivial()
+
+
 # ---------------------------------------------------------------- rows are vectors too
 @st.composite
 def rows_case(draw, tier="quick"):
@@ -293,6 +312,7 @@ def parts(tier):
         Part("group", run_group, strategy=lambda t: R.group_case(t), examples=(800, 40000), shards=(2, 16)),
         Part("sort", run_sort, strategy=lambda t: c14.sort_case(t), examples=(500, 20000), shards=(1, 16)),
         Part("csv", run_csv, strategy=lambda t: c19.csv_case(t), examples=(800, 30000), shards=(1, 16)),
+        Part("methods", run_methods, strategy=lambda t: c05.method_case(t), examples=(800, 30000), shards=(2, 16)),
         Part("rows", run_rows, strategy=lambda t: rows_case(t), examples=(800, 30000), shards=(2, 16),
              floors={"first_row_complete_later_none": 0.05}),
         Part("history", run_history, strategy=lambda t: W.program(max_steps=mx), examples=(1500, 32000), shards=(6, 16)),
